@@ -323,6 +323,16 @@ func (s *Sched) Current(site string) *Task {
 	return t
 }
 
+// Known reports whether the calling goroutine is already a task of this scheduler (Current would
+// register it). Used by hooks that must leave goroutines of earlier episodes alone.
+func (s *Sched) Known() bool {
+	id := goid()
+	s.Mu.Lock()
+	_, ok := s.tasks[id]
+	s.Mu.Unlock()
+	return ok
+}
+
 func (s *Sched) park(t *Task, site string, always bool) {
 	s.Mu.Lock()
 	t.site = site
